@@ -119,6 +119,16 @@ pub fn overflowing_add_u32(a: u32, b: u32) -> (r: (u32, bool))
             ((a as int) + (b as int)) < 0x1_0000_0000int ==> !r.1 && r.0 as int == a as int + b as int,
 { a.overflowing_add(b) }
 
+#[verifier::external_body]
+pub fn u16_to_be_bytes(x: u16) -> (r: [u8; 2])
+    ensures r[0] as int == x as int / 256, r[1] as int == x as int % 256,
+{ x.to_be_bytes() }
+
+#[verifier::external_body]
+pub fn u32_to_be_bytes(x: u32) -> (r: [u8; 4])
+    ensures r[0] as int == x as int / 16777216, r[1] as int == (x as int / 65536) % 256, r[2] as int == (x as int / 256) % 256, r[3] as int == x as int % 256,
+{ x.to_be_bytes() }
+
 /// `u16::to_be` on a little-endian target: byte swap
 #[verifier::external_body]
 pub fn u16_to_be(x: u16) -> (r: u16)
